@@ -12,9 +12,9 @@ hexadecimal words, row 0 first, bit j of word i = entry (i, j); a lane = one hex
   sm_genblock <nrows> <ncols> <cols> <limit> -> `ok Y1;...;Yk` | `limit Y1;...;Yk` | panic   (harness only: the blocks drawn
   by thread_rng are recorded by a hook), followed up on the Lean driver by
   sm_genblock_replay <nrows> <ncols> <cols> <Y1;...;Yk> -> `ok k` | `limit k` | panic.
-  sm_lanczos <nrows> <ncols> <cols> -> `<Y0> <mask/W/Y|...|Yfinal>` | `panic <Y0>` (harness only: a real kernel_lanczos run; Y0 = the
+  sm_lanczos <nrows> <ncols> <cols> -> `<Y0> <mask/W/Y|...|Yfinal>#<basis>` | `panic <Y0>` (harness only: a real kernel_lanczos run; Y0 = the
   block returned by genblock, then per completed iteration of the main loop the hook's record (mask, W_i, Y after its update) and
-  the final Y), followed up on the Lean driver by  sm_lanczos_replay <nrows> <ncols> <cols> <Y0> -> `mask/W/Y|...|Yfinal` | panic
+  the final Y), followed up on the Lean driver by  sm_lanczos_replay <nrows> <ncols> <cols> <Y0> -> `mask/W/Y|...|Yfinal#<basis>` | panic
   (initial block + every iteration of the loop recomputed by the model of lanczosStep from Y0).
 PROFILE CONVENTION: every op exists under two prefixes. `sm_X` = the driver answers with the model of the CHECKED profile
 (debug_assert active), `smr_X` = with the model of the RELEASE profile; the harness answers both spellings with the real
@@ -49,7 +49,7 @@ OPS = tuple(p + o for p in ("sm_", "smr_") for o in BASE_OPS)
 LEAN = ["Ymq.Props.C14Small"]
 AUDIT = "Ymq.Audit.C14Small"
 # >>>>>>>>>> PLACEHOLDER: space separated names of the theorems of namespace Ymq.C14Small (to be filled in) <<<<<<<<<<
-THEOREM_NAMES = ("rank_spec rank_profile_independent pseudoinverse_spec pseudoinverse_no_panic pseudoinverse_sound submatrix_spec pipeline_spec rank_reverse_spec inverse_spec inverse_some_iff inverse_profile_independent transpose_spec mask_spec reverse_spec symmetric_spec identity_spec genblock_never_ends genblock_accepts mul_aab_opt_spec gram_rank_le_cube genblock_never_ends_hang_rule genblock_never_ends_low_rank genblock_never_ends_witness lanczos_init_well_formed lanczos_step_no_panic_release lanczos_step_checked_orthogonal lanczos_init_invariant lanczos_step_no_panic_checked lanczos_invariant lanczos_loop_no_panic_release lanczos_loop_no_panic_unpurged rank_not_greedy pseudoinverse_unmasked_counterwitness pipeline_nonsymmetric_counterwitness")
+THEOREM_NAMES = ("rank_spec rank_profile_independent pseudoinverse_spec pseudoinverse_no_panic pseudoinverse_sound submatrix_spec pipeline_spec rank_reverse_spec inverse_spec inverse_some_iff inverse_profile_independent transpose_spec mask_spec reverse_spec symmetric_spec identity_spec genblock_never_ends genblock_accepts mul_aab_opt_spec gram_rank_le_cube genblock_never_ends_hang_rule genblock_never_ends_low_rank genblock_never_ends_witness lanczos_init_well_formed lanczos_step_no_panic_release lanczos_step_checked_orthogonal lanczos_init_invariant lanczos_step_no_panic_checked lanczos_invariant lanczos_loop_no_panic_release lanczos_loop_no_panic_unpurged kernel_lanczos_sound kernel_lanczos_release_no_panic rank_not_greedy pseudoinverse_unmasked_counterwitness pipeline_nonsymmetric_counterwitness")
 THEOREMS = ["Ymq.C14Small." + t for t in THEOREM_NAMES.split()]
 
 N = 64
@@ -926,8 +926,24 @@ def oracle_lanczos(case, ans):
     parts = ans.split(" ")
     if len(parts) != 2 or parts[0] == "panic":
         return "kernel_lanczos panicked on a matrix with at least 64 rows and rank((B^T B)^3) >= 64"
-    items = parts[1].split("|")
+    body, _, basis = parts[1].partition("#")
+    items = body.split("|")
     yfin = words_of(items[-1])
+    # the returned vectors (the K follow-up recomputes them with the composed model kernelLanczos): non-zero, in the kernel
+    dense = [sum(1 << i for i in set(c) if c.count(i) % 2) for c in cols]
+    for hx in ([] if basis in ("", "-") else basis.split(",")):
+        v = int(hx, 16)
+        if v == 0 or v >> ncols:
+            return "returned vector is null or too long"
+        acc = 0
+        j = 0
+        while v:
+            if v & 1:
+                acc ^= dense[j]
+            v >>= 1
+            j += 1
+        if acc:
+            return "returned vector is not in the kernel"
     if len(yfin) != ncols:
         return "final Y has the wrong length"
     ws, aws = [], []
@@ -1292,7 +1308,9 @@ CLAIM = ("Lean theorems, for EVERY size n (the code has n = 64; n <= 256 where t
          "invariant is proved: lanczos_init_invariant); loop level: the release loop with fuel never panics (lanczos_loop_no_panic_release) and "
          "the checked loop never panics - all assertions of every iteration and after the loop hold - until the first state where a block "
          "is no longer projected (lanczos_loop_no_panic_unpurged); beyond the first purge it is sampled by K on every iteration of real runs "
-         "and checked pairwise by the oracle.")
+         "and checked pairwise by the oracle; the composed model kernelLanczos (initial block + loop + C14's final stage) returns only "
+         "non-zero kernel vectors (kernel_lanczos_sound) and reaches no panic site in the release profile "
+         "(kernel_lanczos_release_no_panic); its answer is K-compared with the basis returned by real runs.")
 LEVEL_NOTE = ("The theorems are about the model; the K stream ties it to the code in both profiles (sm_* against the checked build, smr_* "
               "against the release build, panics included); genblock is tied through the recorded stream of random blocks. The Python oracle "
               "judges every implementation answer inside the documented domains by its own elimination.")
